@@ -309,6 +309,8 @@ func (e *Env) typeByName(t string) (string, types.Type) {
 		return "Int", types.Universe.Lookup("error").Type()
 	case "iface":
 		return "Iface", types.NewInterfaceType(nil, nil)
+	case "View":
+		return "View", nil
 	}
 	if strings.HasPrefix(t, "*") {
 		_, et := e.typeByName(t[1:])
@@ -789,6 +791,10 @@ func (e *Env) callExpr(n *ECall) Val {
 			return Val{S: "KV", T: kvSet(argv(0).T, str(1), str(2))}
 		case "del":
 			return Val{S: "KV", T: kvDel(argv(0).T, str(1))}
+		case "viewBranch":
+			return intVal("(v_br " + argv(0).T + ")")
+		case "viewSvc":
+			return intVal("(v_svc " + argv(0).T + ")")
 		case "prefixOf":
 			return strVal("(v_pre " + argv(0).T + ")")
 		case "bytes":
